@@ -60,6 +60,7 @@ const (
 	OpFFromU  // unsigned bv -> fp of width w
 	OpFToS    // fp -> signed bv of width w (round toward zero); unspecified when out of range
 	OpFToU    // fp -> unsigned bv of width w
+	OpFRound  // fp -> integral fp of the same width; val: 0 toward zero, 1 down, 2 up
 )
 
 var opNames = [...]string{
@@ -71,7 +72,7 @@ var opNames = [...]string{
 	OpZExt: "zero_extend", OpSExt: "sign_extend", OpExtract: "extract",
 	OpFEq: "fp.eq", OpFLt: "fp.lt", OpFLe: "fp.leq", OpFAdd: "fp.add", OpFSub: "fp.sub",
 	OpFMul: "fp.mul", OpFDiv: "fp.div", OpFNeg: "fp.neg", OpFCvt: "fcvt", OpFFromS: "ffroms",
-	OpFFromU: "ffromu", OpFToS: "ftos", OpFToU: "ftou",
+	OpFFromU: "ffromu", OpFToS: "ftos", OpFToU: "ftou", OpFRound: "fround",
 }
 
 // Term is an immutable hash-consed node. w == 0 means Bool.
@@ -835,6 +836,32 @@ func f2fbitsExact(_ float64, s int64, signed bool, u uint64, w int) uint64 {
 	return math.Float64bits(float64(u))
 }
 
+func evalFRound(mode uint64, a uint64, w int) uint64 {
+	f := fbits2f(a, w)
+	switch mode {
+	case 0:
+		f = math.Trunc(f)
+	case 1:
+		f = math.Floor(f)
+	case 2:
+		f = math.Ceil(f)
+	}
+	if math.IsNaN(f) {
+		return a
+	}
+	if w == 32 {
+		return uint64(math.Float32bits(float32(f)))
+	}
+	return math.Float64bits(f)
+}
+
+func mkFRound(a *Term, mode uint64) *Term {
+	if a.op == OpConst {
+		return mkConst(int(a.w), evalFRound(mode, a.val, int(a.w)))
+	}
+	return intern(OpFRound, int(a.w), a, nil, nil, mode, "")
+}
+
 func mkFConv(op Op, a *Term, w int) *Term {
 	if a.op == OpConst {
 		return mkConst(w, evalFConv(op, w, a.val, int(a.w)))
@@ -912,6 +939,8 @@ func (e *evaluator) eval(t *Term) uint64 {
 		r = evalFBin(t.op, w, e.eval(t.a), e.eval(t.b))
 	case OpFCvt, OpFFromS, OpFFromU, OpFToS, OpFToU:
 		r = evalFConv(t.op, w, e.eval(t.a), int(t.a.w))
+	case OpFRound:
+		r = evalFRound(t.val, e.eval(t.a), w)
 	default:
 		panic("eval: " + opNames[t.op])
 	}
@@ -1006,6 +1035,10 @@ func body(t *Term) string {
 		return fmt.Sprintf("((_ fp.to_sbv %d) RTZ %s)", t.w, toFP(ref(t.a), int(t.a.w)))
 	case OpFToU:
 		return fmt.Sprintf("((_ fp.to_ubv %d) RTZ %s)", t.w, toFP(ref(t.a), int(t.a.w)))
+	case OpFRound:
+		mode := []string{"RTZ", "RTN", "RTP"}[t.val]
+		// NaN keeps its payload (Go returns its argument), everything else is rounded
+		return fmt.Sprintf("(ite (fp.isNaN %s) %s (fp.to_ieee_bv (fp.roundToIntegral %s %s)))", toFP(ref(t.a), int(t.w)), ref(t.a), mode, toFP(ref(t.a), int(t.w)))
 	}
 	return "(" + opNames[t.op] + " " + ref(t.a) + " " + ref(t.b) + ")"
 }
